@@ -257,6 +257,14 @@ def decodeLoop {ρ} (reqs : List Char → Option ρ) (names : List (List Char ×
         let a : Scenario ρ := { name := sc.name, minWaitingTime := sc.minWaitingTime, steps }
         decodeLoop reqs names rest (acc ++ List.replicate ns.toNat a)
 
+/-- `config.MaxSpreadSize` (= `1 << 24`) -/
+def maxSpreadSize : Int := 16777216
+
+/-- `config.CheckSpread(names, total)` (repair 4cfc662): `true` = the result of `SpreadNames` is refused — the total or a
+count is negative (the Go sum overflowed; impossible over unbounded integers) or above `MaxSpreadSize` -/
+def spreadRefused (names : List (List Char × Int)) (total : Int) : Bool :=
+  decide (total < 0 ∨ total > maxSpreadSize) || names.any fun nc => decide (nc.2 < 0 ∨ nc.2 > maxSpreadSize)
+
 /-- `decodeAmmo`: the ammo ring (one pass of the provider) -/
 def decodeAmmo {ρ} (reqs : List Char → Option ρ) (scs : List ScenarioCfg) : Outcome (List (Scenario ρ)) :=
   -- `if sc.Weight < 0 { return nil, fmt.Errorf("scenario %s: weight should not be negative, …") }`
@@ -265,6 +273,8 @@ def decodeAmmo {ρ} (reqs : List Char → Option ρ) (scs : List ScenarioCfg) : 
   | .err e => .err e
   | .panic p => .panic p
   | .ok (names, size) =>
+    -- `if err := config.CheckSpread(names, size); err != nil { return nil, err }`
+    if spreadRefused names size then .err "toolarge" else
     if size < 0 then .panic "makeslice" else decodeLoop reqs names scs []
 
 /-- `Provider.Run`: the k-th delivered ammo is `ammos[k % len]` -/
